@@ -58,7 +58,7 @@ def spi_pixel(x, nodata, cal_start, cal_stop):
 
 
 def spi_scaled(x, nodata, cal_start, cal_stop):
-    """round(1000 * index); nodata cells stay nodata."""
+    """round(1000 * index), saturated at +-32767; nodata cells stay nodata."""
     z = spi_pixel(x, nodata, cal_start, cal_stop)
     t = x.shape[0]
     out = np.zeros(t)
@@ -66,5 +66,6 @@ def spi_scaled(x, nodata, cal_start, cal_stop):
         if z[i] == nodata:
             out[i] = nodata
         else:
-            out[i] = round(z[i] * 1000)
+            # an index that leaves the int16 range saturates (C08)
+            out[i] = round(min(max(z[i] * 1000, -32767.0), 32767.0))
     return out
